@@ -278,6 +278,14 @@ impl<T> DataReaderEntity<T> {
             }
         });
 
+        // Samples that belong to the same instance are consecutive in the collection, instances in the
+        // order of their first sample (stable: the order within an instance is kept)
+        samples.sort_by_key(|(_, sample_info)| {
+            instances_in_collection
+                .iter()
+                .position(|x| x.handle() == &sample_info.instance_handle)
+        });
+
         // After the collection is created, update the relative generation rank values and mark the read instances as viewed
         for handle in instances_in_collection.iter().map(|x| x.handle()) {
             let most_recent_sample_absolute_generation_rank = samples
